@@ -40,7 +40,7 @@ InitAll ==
     /\ nmsg = 0 /\ fanLost = FALSE /\ last = [kind |-> "none", fails |-> {}] /\ hist = <<>> /\ tags = {}
 
 NextOne == /\ last.kind = "none"
-           /\ \/ \E b \in BOOLEAN : Publish(b)
+           /\ \/ \E b, c \in BOOLEAN : Publish(b, c)
               \/ \E s \in Peers, a \in Peers \cup {Outsider} : Forward(s, a)
               \/ Heartbeat
            /\ tags' = tags
